@@ -77,3 +77,55 @@ Qed.
 Lemma space_reshape_refuted : exists n T, 
   reshape_samples (map (fun g => (g, [g])) (seq 0 T)) [0] [n] T = None.
 Proof. exists 2, 3. reflexivity. Qed.
+
+(* ---------------------------------------------------------------- vacuum_padding: all padded lists get the same extra length *)
+Lemma vp_arrivals_bound : forall loops arrival,
+  arrival <= snd (vp_arrivals arrival loops) /\
+  Forall (fun p => arrival <= p /\ p <= snd (vp_arrivals arrival loops)) (fst (vp_arrivals arrival loops)).
+Proof.
+  induction loops as [|[alpha d] r IH]; intros arrival; simpl; [split; [lia|constructor]|].
+  set (delay := if Nat.eqb (start_zeros_z alpha) (length alpha) then d else Nat.min (start_zeros_z alpha) d).
+  specialize (IH (arrival + delay)). destruct (vp_arrivals (arrival + delay) r) as [ps tot]. simpl in *.
+  destruct IH as [H1 H2]. split; [lia|]. constructor; [lia|].
+  eapply Forall_impl; [|exact H2]. simpl. intros; lia.
+Qed.
+
+Lemma pad_length : forall pro tot l, pro <= tot -> length (pad pro tot l) = length l + tot.
+Proof. intros. unfold pad. rewrite !app_length, !repeat_length. lia. Qed.
+
+(* every list returned by vacuum_padding is its input list plus exactly `crop` zeros (so lists of
+   equal length stay of equal length), and its prologue is at most `crop` *)
+Theorem vacuum_padding_lengths : forall sg loops delays,
+  length delays = length loops ->
+  let r := vacuum_padding sg loops delays in
+  let tot := snd r in
+  length (fst (fst r)) = length sg + tot /\
+  length (snd (fst r)) = length loops /\
+  forall i rg bs, nth_error loops i = Some (rg, bs) ->
+    exists rg' bs', nth_error (snd (fst r)) i = Some (rg', bs') /\
+      length rg' = length rg + tot /\ length bs' = length bs + tot.
+Proof.
+  intros sg loops delays HL. unfold vacuum_padding.
+  pose proof (vp_arrivals_bound (combine (map snd loops) delays) 0) as B.
+  assert (Lp : length (fst (vp_arrivals 0 (combine (map snd loops) delays))) = length loops).
+  { assert (G : forall l a, length (fst (vp_arrivals a l)) = length l).
+    { induction l as [|[al d] l IHl]; intros a; simpl; [reflexivity|].
+      specialize (IHl (a + (if Nat.eqb (start_zeros_z al) (length al) then d else Nat.min (start_zeros_z al) d))).
+      destruct (vp_arrivals _ l). simpl in *. now rewrite IHl. }
+    rewrite G, combine_length, map_length. lia. }
+  destruct (vp_arrivals 0 (combine (map snd loops) delays)) as [ps tot]. simpl in *.
+  destruct B as [_ B]. split; [|split].
+  - apply pad_length. destruct ps; simpl; [lia|]. inversion B; subst. lia.
+  - rewrite map_length, combine_length. lia.
+  - intros i rg bs Hi.
+    assert (Hlt : i < length ps) by (rewrite Lp; apply nth_error_Some; congruence).
+    destruct (nth_error ps i) as [p|] eqn:Hp; [|apply nth_error_None in Hp; lia].
+    assert (Hc : nth_error (combine loops ps) i = Some ((rg, bs), p)).
+    { clear - Hi Hp. revert loops ps Hi Hp. induction i; intros [|l loops] [|q ps]; simpl; intros; try discriminate.
+      - inversion Hi; inversion Hp; subst. reflexivity.
+      - apply IHi; assumption. }
+    exists (pad p tot rg), (pad p tot bs). split.
+    + rewrite nth_error_map, Hc. reflexivity.
+    + rewrite Forall_forall in B. assert (Hin : In p ps) by (eapply nth_error_In; eauto).
+      specialize (B p Hin). split; apply pad_length; lia.
+Qed.
